@@ -336,6 +336,12 @@ func classifyMapRange(e *Env, p *load.Program, f *ssa.Function, rg *ssa.Range) (
 				if !derived(x.Key) {
 					return "sensitive", "a map cell not determined by the iteration's own key/value is written (last writer wins)"
 				}
+				// a set insertion (`seen[x] = struct{}{}`, `seen[x] = true`): every writer of a cell writes the same constant,
+				// so it does not matter who comes last
+				if isConstOrEmptyStruct(x.Value) {
+					why = append(why, "inserts into a set (constant cell value)")
+					continue
+				}
 				// distinct iterations must write distinct keys: key derived from k is distinct; from v needs injective values
 				if derivesFromP(x.Key, isIterVal, 0) {
 					if ok, detail := injectiveSources(e, p, f, rg); !ok {
@@ -394,6 +400,17 @@ func classifyMapRange(e *Env, p *load.Program, f *ssa.Function, rg *ssa.Range) (
 		why = append(why, "no order-dependent effect in the body")
 	}
 	return "insensitive", strings.Join(why, "; ")
+}
+
+// isConstOrEmptyStruct: a compile-time constant, or a value of a type without content (struct{}).
+func isConstOrEmptyStruct(v ssa.Value) bool {
+	if _, ok := v.(*ssa.Const); ok {
+		return true
+	}
+	if st, ok := v.Type().Underlying().(*types.Struct); ok && st.NumFields() == 0 {
+		return true
+	}
+	return false
 }
 
 func nameOfPhi(ph *ssa.Phi) string {
